@@ -187,7 +187,7 @@ func buildProbe() ProbeReport {
 			}
 		}
 	}
-	for _, shape := range []string{"func-adapter", "struct-with-slice", "equal-values"} {
+	for _, shape := range []string{"func-adapter", "struct-with-slice", "equal-values", "zero-value"} {
 		rep.Rounds++
 		if msg := valueDisposableRound(shape); msg != "" {
 			rep.Bad = append(rep.Bad, "value-disposable/"+shape+": "+msg)
@@ -211,6 +211,13 @@ func (s bSliceCloser) Close() error { atomic.AddInt32(s.closed, 1); return nil }
 
 type bLease struct{ closed *int32 }
 
+// a disposable whose instances are small numbers: slot 0 is the zero value of its type and an instance like any other
+type bSlot int
+
+var bSlotClosed [2]int32
+
+func (s bSlot) Close() error { atomic.AddInt32(&bSlotClosed[s], 1); return nil }
+
 func (l bLease) Close() error { atomic.AddInt32(l.closed, 1); return nil }
 
 // valueDisposableRound: "every instance created by the container that has a Close() error method is closed exactly
@@ -232,6 +239,16 @@ func valueDisposableRound(shape string) (msg string) {
 		err = c.AddSingleton(func() bCloserFunc { return func() error { atomic.AddInt32(&val, 1); return nil } })
 	case "struct-with-slice":
 		err = c.AddSingleton(func() bSliceCloser { return bSliceCloser{[]string{"a"}, &val} })
+	case "zero-value":
+		atomic.StoreInt32(&bSlotClosed[0], 0)
+		atomic.StoreInt32(&bSlotClosed[1], 0)
+		err = c.AddSingleton(func() bSlot { return 0 }, godi.Name("first"))
+		if err == nil {
+			err = c.AddSingleton(func() bSlot { return 1 }, godi.Name("second"))
+		}
+		if err == nil {
+			err = c.AddScoped(func() bSlot { return 0 })
+		}
 	default:
 		want = 2
 		err = c.AddSingleton(func() bLease { return bLease{&val} }, godi.Name("a"))
@@ -246,6 +263,28 @@ func valueDisposableRound(shape string) (msg string) {
 	p, err := c.Build()
 	if err != nil {
 		return "Build: " + err.Error()
+	}
+	if shape == "zero-value" {
+		sc, err := p.CreateScope(context.Background())
+		if err != nil {
+			return err.Error()
+		}
+		if _, err := godi.Resolve[bSlot](sc); err != nil {
+			return err.Error()
+		}
+		if err := sc.Close(); err != nil {
+			return err.Error()
+		}
+		if n := atomic.LoadInt32(&bSlotClosed[0]); n != 1 {
+			return fmt.Sprintf("a scoped instance that is the zero value of its type was closed %d times by its scope's Close (want 1)", n)
+		}
+		if err := p.Close(); err != nil {
+			return "Close: " + err.Error()
+		}
+		if a, b := atomic.LoadInt32(&bSlotClosed[0]), atomic.LoadInt32(&bSlotClosed[1]); a != 2 || b != 1 || ptr != 1 || first != 1 {
+			return fmt.Sprintf("after provider.Close: slot 0 (scoped once, singleton once) closed %d times (want 2), slot 1 %d times (want 1)", a, b)
+		}
+		return ""
 	}
 	if err := p.Close(); err != nil {
 		return "Close: " + err.Error()
